@@ -53,6 +53,8 @@ class Guarded(list):
         return list.__setitem__(self, k, v)
 
 
+TIE_SCALE = 5   # once the tie is broken the failing-input search runs at this multiple of the budget (default 10; this check is slow)
+
 def _alarm(signum, frame):
     raise TooMany()
 
